@@ -9,10 +9,10 @@ PROPERTY = "C15"
 RULE = (
     "A rule-based state machine over a pool of 2-8 generated U1 classes (duplicates in the pool give "
     "equal-but-not-identical instances; a flag selects classes with to_bytes/from_bytes so that the database "
-    "stores them zlib-compressed) with ops get_label, get_class by label (issued, too large, negative) and by "
+    "stores them zlib-compressed, a mix of both, or classes with a legal but coarse __hash__ under which unequal classes collide) with ops get_label, get_class by label (issued, too large, negative) and by "
     "class, membership of classes and of integers, is_empty with/without label and on never-labelled classes, "
     "set_empty with the true value. Non-trivial: the history looks up an unknown or negative label after >=2 "
-    "classes were stored, or performs a compressed round trip (get_class on a compressed database). "
+    "classes were stored, performs a compressed round trip (get_class on a compressed database), or stores two classes with the same hash. "
     "Distinct = distinct canonical JSON of (pool, flag, op list)."
 )
 LEVEL_TEXT = (
@@ -34,9 +34,9 @@ class Stepper:
         from comb_spec_searcher.class_db import ClassDB
 
         self.ctx = ctx
-        self.compressed = int(config.get("compressed") or 0)  # 0 plain, 1 all compressed, 2 mixed
+        self.compressed = int(config.get("compressed") or 0)  # 0 plain, 1 all compressed, 2 mixed, 3 colliding hashes
         self.pool = config["pool"]
-        self.cls_type = {0: U.WC, 1: U.WCB, 2: U.WCM}[self.compressed]
+        self.cls_type = {0: U.WC, 1: U.WCB, 2: U.WCM, 3: U.WCH}[self.compressed]
         self.db = ClassDB(self.cls_type)
         self.model = {}  # class -> label
         self.order = []  # label -> class
@@ -79,7 +79,7 @@ class Stepper:
             if c not in self.model:  # documented: looking a class up adds it
                 self.model[c] = len(self.order)
                 self.order.append(c)
-            if self.compressed:
+            if self.compressed in (1, 2):
                 self.saw_roundtrip = True
         elif name == "contains_class":
             c = self.mk(op[1])
@@ -147,7 +147,7 @@ class Stepper:
             return
         if issued:
             ctx.check(got == self.order[l], "get_class-label", f"get_class({l}) = {got!r}, stored {self.order[l]!r}")
-            if self.compressed:
+            if self.compressed in (1, 2):
                 self.saw_roundtrip = True
         else:
             ctx.fail("get_class-unissued", f"get_class({l}) returned {got!r} although only labels 0..{len(self.order)-1} were issued", "get_class/unissued-label")
@@ -188,7 +188,10 @@ class Stepper:
             ctx.check(labels == list(range(len(self.order))), "iter", f"labels iterate as {labels}, expected 0..{len(self.order)-1}")
         self._contains_label(len(self.order))
         self._contains_label(-1)
-        ctx.nontrivial = self.saw_unknown_lookup or self.saw_roundtrip
+        collide = self.compressed == 3 and len({hash(c) for c in self.order}) < len(self.order)
+        ctx.nontrivial = self.saw_unknown_lookup or self.saw_roundtrip or collide
+        if collide:
+            ctx.label("colliding-hashes")
         if self.saw_unknown_lookup:
             ctx.label("unknown-label-lookup")
         if self.saw_roundtrip:
@@ -205,7 +208,7 @@ def _machine(tier):
         config=st.fixed_dictionaries(
             {
                 "pool": st.lists(gen.class_desc(tier=tier), min_size=2, max_size=8),
-                "compressed": st.sampled_from([0, 1, 1, 2, 2]),
+                "compressed": st.sampled_from([0, 1, 1, 2, 2, 3, 3]),
             }
         ),
         ops={
